@@ -750,3 +750,12 @@ mod tests {
         );
     }
 }
+
+// Verification hook (pass-through to the private header update; compiled
+// only with `--cfg rust_vmm_acpi_tables_verif`).
+#[cfg(rust_vmm_acpi_tables_verif)]
+impl RIMT {
+    pub fn verif_update_header(&mut self, sum: u8, len: u32) {
+        self.update_header(sum, len)
+    }
+}
